@@ -563,3 +563,8 @@ MUTANTS += [
      'old': """            message += piece;
             left -= piece;""", 'new': """            left -= piece;""", 'expect': 'R4.piece-loop lib_hash_update'},
 ]
+
+
+# SESSION7b additions to the claim (round 8, DESIGN 12.6)
+CLAIM['technique'] += '; digest output extent of the bundled finals by the layout interpreter'
+CLAIM['text'] += ' C18-k: each bundled final writes bytes 0..size-1 of its digest for every buffered length.'
